@@ -92,7 +92,7 @@ def run(ctx):
                 "expected_order": [bytes(e["name"]).decode() for e in mid["all"]]})
     ctx.cov["rule"] = ("TLC enumerates every placement (absent/loose/packed/both-with-stale-packed) of the %d-name universe without loose "
                        "directory/file conflicts; per store: full iteration, 3 prefix iterations, 9 short-name lookups. Non-trivial = a byte "
-                       "below '/' meets a directory boundary or a stale packed value is shadowed; distinct by (loose, packed)." % (9 if ctx.thorough else 7))
+                       "below '/' meets a directory boundary or a stale packed value is shadowed; distinct by (loose, packed)." % (10 if ctx.thorough else 8))
 
 
 def replay(ctx, rec):
